@@ -5,6 +5,7 @@ CONSTANTS Operands <- OperandsA
  LongOperands <- OperandsA
  LongOps <- OpsAll
  LongPres <- PresAll
+ ChainPairwise = FALSE
  RightTakesRest = FALSE
  GoRemainder = FALSE
  Emit = FALSE
